@@ -93,7 +93,7 @@ impl Scenario for Frames {
                 p.set("fix_kind", 1);
                 // cut: -1 = none, else per-mille position in the stream
                 p.set("cut_permille", if rng.chance(1, 3) { -1 } else { rng.below(1000) as i64 });
-                p.sources.push(gen_benign_source(&mut rng, false));
+                p.sources.push(gen_benign_source(&mut rng, true));
                 p
             },
             _ => {
@@ -146,6 +146,40 @@ impl Scenario for Frames {
                 let total = wire.len();
                 let cut = if plan.param("cut_permille") < 0 { total } else { (total as u64 * plan.param("cut_permille") as u64 / 1000) as usize };
                 let mut src = plan.source0();
+                if src.base == Base::FromBytes {
+                    // decode_from_bytes is a whole-buffer entry point: every frame is handed the
+                    // rest of the (cut) stream as a shared buffer
+                    let avail = &wire[..cut];
+                    let mut pos = 0usize;
+                    let mut decoded = 0;
+                    for (i, m) in plan.msgs.iter().enumerate() {
+                        let s = cat.get(&m.subject);
+                        let fully_available = pos + lens[i] <= cut;
+                        let out = (s.decode)(&avail[pos..], &src, Mode::Decode);
+                        st.note(salt(&[&m.subject, "from_bytes_frame", if out.res.is_ok() { "ok" } else { "err" }]), &out.trace, true);
+                        if fully_available {
+                            match &out.res {
+                                Ok(v) if *v == m.value && out.taken == lens[i] => {},
+                                Ok(v) => return viol("c14.frame_value", format!("frame {} ({}) of a stream via decode_from_bytes: sent {} ({} bytes) got {} ({} bytes)", i, m.subject, short(&m.value), lens[i], short(v), out.taken)),
+                                Err(e) => return viol("c14.frame_failed", format!("frame {} ({}) at offset {} failed via decode_from_bytes although fully present: {}", i, m.subject, pos, e)),
+                            }
+                            pos += lens[i];
+                            decoded += 1;
+                        } else {
+                            if lens[i] == 0 {
+                                continue;
+                            }
+                            if let Ok(v) = &out.res {
+                                return viol("c14.cut_frame_accepted", format!("frame {} ({}) was cut after {} of {} bytes but decode_from_bytes gave {}", i, m.subject, cut - pos, lens[i], short(v)));
+                            }
+                            st.fire("eof_in_frame");
+                            break;
+                        }
+                    }
+                    st.probe("from_bytes_streams");
+                    st.sample(|| json!({"kind": "stream", "frames": plan.msgs.iter().map(|m| m.subject.clone()).collect::<Vec<_>>(), "total_len": total, "cut": cut, "decoded_frames": decoded, "source": src.describe()}));
+                    return Ok(());
+                }
                 src.faults.push(Fault::EofAt { byte: cut as u32 });
                 let mut base = BaseInput::new(&src, &wire);
                 let mut pos = 0usize;
